@@ -316,6 +316,92 @@ def run_grad(ctx, i, rng):
     ctx.check(close_arrays(state_of(model), want), 'state_after:grad', lambda: dict(case=desc, count=int(model.count.value), want=int(want['count'])))
 
 
+def run_grad_history(ctx, i, rng):
+  """One nnx.grad / value_and_grad function object reused over a call history that contains rejected calls (integer-dtype selected
+  Variable, an exception in the user's loss, inconsistent aliasing): every accepted call must still equal jax.grad of the functional
+  form and leave its own model in the reference state - nothing of an earlier call may leak into a later one."""
+  import jax
+  import jax.numpy as jnp
+  from flax import nnx
+  C = classes()
+  d, bsz = rng.randint(1, 3), 2
+  wrt_name, wrt, selected = rng.choice([('Param', nnx.Param, ('w', 'b')), ('Gain', C['Gain'], ('gain',)), ("tag 'bias'", 'bias', ('b',)),
+                                        ('(Gain, BatchStat)', (C['Gain'], nnx.BatchStat), ('gain', 'stat'))])
+  vag = rng.random() < 0.5
+  hist = [rng.choice(['ok', 'ok', 'int_selected', 'user_raises', 'aliasing', 'ok_same_model']) for _ in range(rng.randint(3, 6))]
+  if not any(h != 'ok' and h != 'ok_same_model' for h in hist[:-1]):
+    hist.insert(1, rng.choice(['int_selected', 'aliasing', 'user_raises']))
+  hist.append('ok')
+  desc = dict(wrt=wrt_name, value_and_grad=vag, history=hist, d=d)
+  with ctx.case('grad_history', i, desc, nontrivial=True):
+    nr = np.random.default_rng(rng.getrandbits(32))
+    boom = [False]
+
+    def loss(m, x, m2=None):
+      if boom[0]:
+        raise ValueError('user error inside the loss')
+      y = m(x)
+      if m2 is not None:
+        y = y + m2(x)
+      return jnp.sum(y ** 2)
+
+    tf = (nnx.value_and_grad if vag else nnx.grad)(loss, argnums=nnx.DiffState(0, wrt))
+    tf2 = (nnx.value_and_grad if vag else nnx.grad)(loss, argnums=(nnx.DiffState(0, wrt), nnx.DiffState(2, nnx.Not(wrt))))
+    prev = None
+    for step, h in enumerate(hist):
+      a = base_arrays(nr, d)
+      x = nr.uniform(-1, 1, size=(bsz, d)).astype(np.float32)
+      if h == 'ok_same_model' and prev is not None:
+        model, a = prev
+      else:
+        model = C['Cell'](a)
+      ctx.op('nnx.grad(history:%s)' % h.split('_')[0])
+      if h == 'int_selected':
+        for k in selected:
+          getattr(model, k).value = jnp.asarray(np.asarray(a[k]).astype(np.int32))
+        try:
+          tf(model, jnp.asarray(x))
+          ctx.event('note.grad_history:int_selected_accepted')
+        except Exception:  # noqa: BLE001 - jax.grad rejects integer inputs
+          ctx.event('grad_history:rejected_call')
+        continue
+      if h == 'user_raises':
+        boom[0] = True
+        try:
+          tf(model, jnp.asarray(x))
+        except ValueError:
+          ctx.event('grad_history:rejected_call')
+        boom[0] = False
+        continue
+      if h == 'aliasing':
+        # the same module under two different differentiation filters
+        try:
+          tf2(model, jnp.asarray(x), model)
+          ctx.event('note.grad_history:aliasing_accepted')
+        except Exception:  # noqa: BLE001
+          ctx.event('grad_history:rejected_call')
+        continue
+      before = {k: np.asarray(v) for k, v in state_of(model).items()}
+      out = tf(model, jnp.asarray(x))
+
+      def loss_ref(sel):
+        aa = {k: (sel[k] if k in sel else jnp.asarray(before[k])) for k in before}
+        y = jnp.tanh(jnp.asarray(x) @ aa['w'] + aa['b']) * aa['gain'] - 0.1 * aa['stat']
+        return jnp.sum(y ** 2)
+
+      l_r, g_r = jax.value_and_grad(loss_ref)({k: jnp.asarray(before[k]) for k in selected})
+      grads = out[1] if vag else out
+      if vag:
+        ctx.check(np.allclose(float(out[0]), float(l_r), **TOL), 'grad:value:after_rejected_call', lambda: dict(case=desc, step=step))
+      got = {p[0]: np.asarray(v.value if hasattr(v, 'value') else v) for p, v in nnx.to_flat_state(grads)}
+      ctx.check(set(got) == set(selected) and all(np.allclose(got[k], np.asarray(g_r[k]), rtol=1e-4, atol=1e-5) for k in selected),
+                'grad:values:after_rejected_call', lambda: dict(case=desc, step=step, got=sorted(got)))
+      _, want = cell_ref(before, x)
+      ctx.check(close_arrays(state_of(model), want), 'state_after:grad:after_rejected_call',
+                lambda: dict(case=desc, step=step, count=int(model.count.value), want=int(want['count'])))
+      prev = (model, {k: np.asarray(v) for k, v in state_of(model).items()})
+
+
 def run_aliasing(ctx, i, rng):
   """The same Variable reached under two different axis specifications must be rejected, not silently resolved."""
   import jax.numpy as jnp
@@ -383,6 +469,8 @@ def run(ctx):
     run_scan(ctx, i, ctx.rng('scan', i))
   for i in ctx.indices(110 if ctx.tier == 'quick' else 1600, 'grad'):
     run_grad(ctx, i, ctx.rng('grad', i))
+  for i in ctx.indices(60 if ctx.tier == 'quick' else 600, 'grad_history'):
+    run_grad_history(ctx, i, ctx.rng('grad_history', i))
   for i in ctx.indices(8, 'aliasing'):
     run_aliasing(ctx, i, ctx.rng('alias', i))
   for i in ctx.indices(12 if ctx.tier == 'quick' else 60, 'split_rngs'):
